@@ -79,6 +79,7 @@ type Env struct {
 	nextID    int
 	Factory   []FactoryCall
 	DefScript []WOp
+	UniqueIDs bool // builders hand out unique component ids (only in single-goroutine worlds)
 	// per-task id spaces in concurrent worlds: id = task*100000 + n
 }
 
@@ -102,10 +103,18 @@ func (e *Env) Group404(id int) *Comp { return &Comp{ID: id, Kind: KGroup404, env
 
 // Builders capture the node, exactly as README and examples/std do.
 func (e *Env) OptionsBuilder(base int) types.BuildNodeHandler[*Comp] {
-	return func(n types.Node) *Comp { return &Comp{ID: base, Kind: KOptions, Node: n, env: e} }
+	return func(n types.Node) *Comp { return &Comp{ID: e.builderID(base), Kind: KOptions, Node: n, env: e} }
+}
+
+func (e *Env) builderID(base int) int {
+	if !e.UniqueIDs {
+		return base
+	}
+	e.nextID++
+	return 2000000 + e.nextID
 }
 func (e *Env) NotAllowedBuilder(base int) types.BuildNodeHandler[*Comp] {
-	return func(n types.Node) *Comp { return &Comp{ID: base, Kind: K405, Node: n, env: e} }
+	return func(n types.Node) *Comp { return &Comp{ID: e.builderID(base), Kind: K405, Node: n, env: e} }
 }
 
 // MW is a simulated middleware with a tag.
@@ -149,6 +158,7 @@ type ReqRec struct {
 	Methods   []string // Route.Node().Methods() at call time
 	Faults    []*FaultSpec
 	Hook      func(rec *ReqRec, route types.Route) // extra observation inside the handler
+	Comp      *Comp
 }
 
 type recKey struct{}
@@ -237,7 +247,7 @@ func (e *Env) exec(w http.ResponseWriter, r *http.Request, route types.Route, h 
 		return
 	}
 
-	rec.HID, rec.Kind = h.ID, h.Kind
+	rec.HID, rec.Kind, rec.Comp = h.ID, h.Kind, h
 	rec.Router = route.RouterName()
 	rec.PathSeen = r.URL.Path
 	rec.Params = snapshotParams(route.Params())
